@@ -7,6 +7,11 @@ import (
 
 // Simple helper that will take 2 or more integers, and apply an operation
 func arithmaticHelperi(equation func(int, int) int) KeyBuilderFunction {
+	return arithmaticHelperiEx(equation, false)
+}
+
+// Same as arithmaticHelperi; when nonZero is set, a zero operand after the first yields ErrorValue (division)
+func arithmaticHelperiEx(equation func(int, int) int, nonZero bool) KeyBuilderFunction {
 	return KeyBuilderFunction(func(args []KeyBuilderStage) (KeyBuilderStage, error) {
 		if len(args) < 2 {
 			return stageErrArgRange(args, "2+")
@@ -27,6 +32,9 @@ func arithmaticHelperi(equation func(int, int) int) KeyBuilderFunction {
 				val, ok := typedArgs[i](context)
 				if !ok {
 					return ErrorNum
+				}
+				if nonZero && val == 0 {
+					return ErrorValue
 				}
 				final = equation(final, val)
 			}
